@@ -26,7 +26,9 @@ RULE = ("programs x initial states of C02 (alphabet sequences exhaustively up to
         "address) and cycles == steps; straight-line programs of n mutually independent instructions take n+4; with caches "
         "(both caches, both modes) each step adds exactly 1 + d_penalty*d_misses + i_penalty*i_misses. non-trivial = the "
         "reference schedule contains an interlock, a redirect or an ecall drain, or a miss with penalty>0 occurred; "
-        "distinct = hash(case)")
+        "distinct = hash(case)"
+        ' The per-step identity is also checked on a simulation object that executed part of another program and was lo'
+        'aded again.')
 ASSUMPTIONS = [
     "the reference schedule (DESIGN.md §1.2) is the statement of 'the documented pipeline'",
     "with miss penalties the step index of each retirement is compared; the counter is compared against steps+penalties",
